@@ -85,7 +85,11 @@ def detect_in(sid, wt, props):
     for p in props:
         t = time.time()
         env = dict(os.environ, VERIF_REPO=wt)
+        ev = os.path.join(VERIF, "evidence", p + ".json")
+        keep = open(ev).read() if os.path.exists(ev) else None
         rc, out = sh([os.path.join(VERIF, "check"), p], cwd=VERIF, env=env)
+        if keep is not None:
+            open(ev, "w").write(keep)  # evidence files describe the unchanged tree only
         sigs = [l.strip()[len("signature: "):] for l in out.splitlines() if l.strip().startswith("signature: ")]
         meta["detected_by"][p] = {"exit": rc, "violations": sigs[:6], "wall_s": round(time.time() - t, 1),
                                   "tier": "quick", "seed": int(os.environ.get("VERIF_SEED", "1")), "via": "VERIF_REPO=" + wt}
@@ -110,7 +114,11 @@ def detect(sid, props):
         for p in props:
             t = time.time()
             env = dict(os.environ)
+            ev = os.path.join(VERIF, "evidence", p + ".json")
+            keep = open(ev).read() if os.path.exists(ev) else None
             rc, out = sh([os.path.join(VERIF, "check"), p], cwd=VERIF, env=env)
+            if keep is not None:
+                open(ev, "w").write(keep)  # evidence files describe the unchanged tree only
             sigs = [l.strip()[len("signature: "):] for l in out.splitlines() if l.strip().startswith("signature: ")]
             meta["detected_by"][p] = {"exit": rc, "violations": sigs[:6], "wall_s": round(time.time() - t, 1),
                                       "tier": "quick", "seed": int(os.environ.get("VERIF_SEED", "1"))}
